@@ -278,6 +278,23 @@ def check(ops, blocks):
         if o[0] == "CALL":
             k = o[1][0]
             res = b["res"]
+            if k == "SCHED" and o[1][1]["type"] != 0:
+                # C09: a list is rejected iff two entries denote the same recurring instants
+                c = o[1][1]
+                rs = [residue(c["type"], e) for e in c["timing"]]
+                aware = V.tz is not None
+                offs = [e[-1][4] for e in c["timing"]]
+                if c["start"] is not None:
+                    offs.append(c["start"][1])
+                if c["stop"] is not None:
+                    offs.append(c["stop"][1])
+                uniform = all((v is not None) == aware for v in offs)
+                base = utc_of(c["start"]) if c["start"] is not None else now
+                window_ok = c["stop"] is None or utc_of(c["stop"]) > base
+                if len(set(rs)) < len(rs) and uniform and res[0] == "ok":
+                    bad("C09", "a list with two equivalent entries was accepted: residues %s" % rs)
+                if len(set(rs)) == len(rs) and uniform and window_ok and res[0] == "err":
+                    bad("C09", "a list of pairwise different recurring instants was rejected (%s): residues %s" % (res[1], rs))
             if k in ("SCHED", "ONCE") and res[0] == "err":
                 if res[1] != "SchedulerError":
                     bad("C13", "scheduling call failed with %s" % res[1])
